@@ -66,6 +66,19 @@ def scenario (w : Wire) (wd : World) : Outcome :=
     commitments := if committed then 1 else 0,
     engineSaw := if funded then 1 else 0 }
 
+/-- a provider dials a bootnode built by NewNode: the bootnode's handshake uses the same
+`handshakeStake` wiring as every other role — it admits the provider iff the configured provider
+registry confirms its stake, and blocks it otherwise -/
+structure BootOutcome where
+  stakeReadsAt : List Target
+  admitted : Bool
+  blocked : Bool
+  deriving Repr, DecidableEq
+
+def bootScenario (w : Wire) (staked : Bool) : BootOutcome :=
+  let ok := w.handshakeStake = .providerRegistry && staked
+  { stakeReadsAt := [w.handshakeStake], admitted := ok, blocked := !ok }
+
 /-- what became of a stake / prepay transaction -/
 inductive TxFate where
   | minedOk | reverted | rejected
